@@ -57,7 +57,7 @@ PROPS.update({
     "C02": {
         "title": "Captured ops form a valid edit script old->new",
         "module": "SimilarVerif.Props.C02",
-        "suites": ["cap", "deadline"],
+        "suites": ["cap", "deadline", "text"],
         "rule": "cap: capture_diff_deadline on all pairs up to length 4 (thorough 5) over 3 symbols, all sub-ranges of pairs up to 3 (thorough 4) with slice/offset lookups, structured random pairs; each case also through Compact(Replace(hook)) built by hand and with the repair switch; deadline: every expiry point; non-trivial = a change and an equal item",
         "theorem_status": "full for everything that follows from validity of the op list (application, coverage, ratio in [0,1], ratio = 1 iff no change iff element-wise equal) and for the Replace->Capture stage on any valid script; Compact stage: partial correctness (C10); end-to-end factorisation of captureDiff into raw stream -> clean-up -> Replace: Lemmas/Capture.lean in progress",
         "level_text": "Lean theorems about any valid op list and about the Replace stage; captured op lists of the implementation compared with the model exactly (incl. comparison/probe counts) and validated by an independent walker / replayer / ratio check.",
@@ -86,7 +86,7 @@ PROPS.update({
         "module": "SimilarVerif.Props.C07",
         "suites": ["deadline", "text"],
         "rule": "deadline: all pairs up to length 4 over 2 (thorough 3) symbols + random pairs x 3 algorithms x every expiry point k = 0..#checks+1 (sampled beyond 40) through algorithms::diff_deadline and capture_diff_deadline under the virtual clock; validators: script validity, finish once, comparisons after expiry <= 2x the hand-derived bound, never-expiring = none; text: TextDiffConfig deadline/timeout reach the algorithm; non-trivial = the clock actually expired",
-        "theorem_status": "validity and finish-once for EVERY expiry point: LCS full (incl. totality), Myers full incl. totality, Patience whenever it returns; never-expiring = none and the post-expiry comparison bound: Lemmas/Deadline.lean in progress, covered by exact model correspondence (comparison and probe counts at every expiry point) and validators",
+        "theorem_status": "validity and finish-once for EVERY expiry point: LCS full (incl. totality), Myers full incl. totality, Patience whenever it returns; never-expiring deadline = no deadline (all algorithms, recording hook and capture pipeline): full; LCS no comparison after expiry: full; Myers <= 3*min(N,M) comparisons after the first expired probe: full; Patience post-expiry bound: not a theorem, measured at every expiry point",
         "level_text": "Lean theorems quantify over all virtual-clock states, i.e. all expiry points; the virtual clock is the cfg(similar_verif) hook in /repo, so expiry at the k-th check is an input of the correspondence as well.",
         "level_note": "real time cannot be exhibited by the model: Instant::now() > deadline is replaced by the virtual clock under the guard",
     },
